@@ -37,3 +37,17 @@ run S07-date-unmarshal-wire-switch C02 C13 C05
 run S08-weekdays-shared-day-list C14 C04
 run S09-dispatchers-switch-commaok C05 C04
 run S10-codec-unmarshal-conditionals C03 C05 C18 C04 C02
+# T*: third set by an independent sub-agent: renamed locals / parameters / a function, a new closure at the top of
+# sendto, reordered initialisers, intermediate variables, if -> switch, reordered map literals, an extracted helper (T-README.txt)
+run T01-put-card-rename-locals C07 C01 C17
+run T02-rename-isCardNumberValid C07
+run T03-hhmm-rename-locals C02 C01 C05
+run T04-get-devices-rename-locals C11 C06
+run T05-sendto-debug-defer C01 C03 C06 C07
+run T06-reorder-field-initialisers C02 C01 C13
+run T07-send-intermediate-variables C09 C06
+run T08-date-if-to-switch C02 C14 C13 C01
+run T09-bcd-rename-and-fold-assignment C12 C05
+run T10-listen-rename-loop-locals C10
+run T11-messages-reorder-dispatch-maps C05 C04
+run T12-set-door-passcodes-extract-helper C07 C01 C04
